@@ -68,6 +68,14 @@ def cases(tier: str, seed: int) -> List[Dict[str, Any]]:
             for c in names:
                 out.append({"kind": "probe", "op": name, "cfg": cfg, "constraint": c, "seed": seed})
             out.append({"kind": "probe", "op": name, "cfg": cfg, "constraint": "", "seed": seed})
+    # requires_grad pattern: one constrained operand frozen (the other keeps the rule's scale)
+    for name in ("matmul", "add", "linear", "linear_readout", "conv1d"):
+        op = OPS[name]
+        names = [c for c in op.coords["constraint"] if c not in (None, "")]
+        for cfg in lattice(op, 1, fixed={"dtype": "float64", "constraint": None}):
+            for c in names:
+                for fz in op.constrained(dict(cfg, constraint=c)):
+                    out.append({"kind": "probe", "op": name, "cfg": cfg, "constraint": c, "seed": seed, "freeze": fz})
     # dtype coordinate: the same rule in float16 / bfloat16 (scalars fitted to the precision of the dtype)
     for name in CONSTRAINED_OPS:
         op = OPS[name]
@@ -270,7 +278,17 @@ def run_case(case: Dict[str, Any]) -> Dict[str, Any]:
         except Exception:  # noqa - low precision unsupported for this op: no history step
             pass
     r0 = probe(op, dict(cfg, constraint=None), case["seed"], draws=1, gdraws=1)
-    r1 = probe(op, dict(cfg, constraint=cname), case["seed"], draws=1, gdraws=1)
+    fz = case.get("freeze", "")
+    if fz:
+        # the unconstrained scalars come from the all-trainable run; the constrained run has one operand frozen
+        try:
+            t_probe = op.make(dict(cfg, constraint=None), torch.Generator().manual_seed(0))
+        except Exception:  # noqa
+            return {"skipped": "build"}
+        if fz not in t_probe or not t_probe[fz].is_floating_point():
+            return {"skipped": "no such operand"}
+        ident += f"|frozen={fz}"
+    r1 = probe(op, dict(cfg, constraint=cname), case["seed"], draws=1, gdraws=1, freeze=fz)
     for r in (r0, r1):
         if "skipped" in r:
             return {"skipped": r["skipped"]}
@@ -282,11 +300,15 @@ def run_case(case: Dict[str, Any]) -> Dict[str, Any]:
     names = op.constrained(cfg)
     c0 = {k: (v[0]["c"] if v else None) for k, v in d0["grads"].items()}
     c1 = {k: (v[0]["c"] if v else None) for k, v in d1["grads"].items()}
-    if any(c0.get(k) is None or c1.get(k) is None for k in names):
+    names_all = list(names)
+    if fz:
+        names = [k for k in names if k != fz]
+        c1 = dict(c1, **{fz: c0.get(fz)})
+    if any(c0.get(k) is None or c1.get(k) is None for k in names_all):
         return {"skipped": "degenerate gradient"}
     if op.name == "add" and cfg["pattern"].startswith("py_"):
         names = []
-    want = d0["s"] if cname == "" or not names else rule(cname, d0["s"], [c0[k] for k in names])
+    want = d0["s"] if cname == "" or not names_all else rule(cname, d0["s"], [c0[k] for k in names_all])
     tol = 1e-10
     lowp = cfg.get("dtype", "float64") != "float64"
     if lowp:
